@@ -738,7 +738,7 @@ fn run_history_inner(ctx: &Ctx, rep: &mut Report, n: u64, rng: &mut Rng, single:
                     let c = Col { name: cname, ty, specs };
                     let sql = if rng.chance(1, 3) {
                         // SQLite has no ADD COLUMN IF NOT EXISTS: the flag is not rendered
-                        crate::ddl::render_schema(Table::alter().table(target(rng, &tname)).add_column_if_not_exists(c.column_def()), Dialect::Sqlite)
+                        crate::ddl::render_schema(Table::alter().table(target(rng, &tname)).add_column_if_not_exists(&mut c.column_def()), Dialect::Sqlite)
                     } else {
                         crate::ddl::render_schema(Table::alter().table(target(rng, &tname)).add_column(c.column_def()), Dialect::Sqlite)
                     };
